@@ -5,7 +5,11 @@
 // after bin/check's -O1).  Parts: CM64 CM32 CMLD (cmath double/float/long double), INT8 NUM8 (8-bit exhaustive: cctype,
 // bit, numeric), W1632 W64 (wider integers, bit_cast), CSTR (C strings, string_view, char_traits), SCEN (constexpr digests
 // of container / string / charconv / algorithm / chrono / bitset histories, float-element ranges), CONT (flat_set /
-// static_set / static_vector / inplace_string / sorted array at every fill up to full capacity x key sweep), WSTR (every character type: char_traits,
+// static_set / static_vector / inplace_string / sorted array at every fill up to full capacity x key sweep), HET (value-taking
+// algorithms on 1- and 2-byte element arrays with wider needles that are not representable in the element type), MIX (gcd,
+// lcm, cmp_*, in_range, saturate_cast over every mixed pair of integer types at the types' own limits), DUR (duration_cast /
+// floor / ceil / round among 32-bit durations where count * num exceeds INT32_MAX); HET, MIX, DUR are attached to the -O0
+// harnesses only (one code path on this tree, the -O0 translation units compile in half the time), WSTR (every character type: char_traits,
 // string_view, inplace_string, strn*/wcsn*/wmem* on exact-size unterminated arrays).
 //
 // For every obligation (function F, argument tuple a):
@@ -1086,14 +1090,19 @@ constexpr auto hetero(u64 packed, N needle) -> u64
     delete[] p;
     return h.h;
 }
-    #define C13_HET(ES, E, NS, N) C13_FN2(het_##ES##_##NS, "hetero." #ES "." #NS, "hetero", BSeq, N, true, kNoTag, hetero<E, N>(x, y))
-    #define C13_HET_E(ES, E)                                                                                                                     \
-        C13_HET(ES, E, same, E)                                                                                                                  \
-        C13_HET(ES, E, short, short)                                                                                                             \
-        C13_HET(ES, E, int, int)                                                                                                                 \
-        C13_HET(ES, E, uint, unsigned)                                                                                                           \
-        C13_HET(ES, E, ll, long long)                                                                                                            \
-        C13_HET(ES, E, ull, unsigned long long)
+template <typename E>
+constexpr auto hetero_all(u64 packed, u64 needle) -> u64
+{
+    u64 r = hetero<E, E>(packed, static_cast<E>(needle));
+    r     = r * 0x100000001b3ULL + hetero<E, short>(packed, static_cast<short>(needle));
+    r     = r * 0x100000001b3ULL + hetero<E, int>(packed, static_cast<int>(needle));
+    r     = r * 0x100000001b3ULL + hetero<E, unsigned>(packed, static_cast<unsigned>(needle));
+    r     = r * 0x100000001b3ULL + hetero<E, long long>(packed, static_cast<long long>(needle));
+    r     = r * 0x100000001b3ULL + hetero<E, unsigned long long>(packed, static_cast<unsigned long long>(needle));
+    return r;
+}
+// the needle word is converted to E, short, int, unsigned, long long and unsigned long long in turn
+    #define C13_HET_E(ES, E) C13_FN2(het_##ES, "hetero." #ES, "hetero", BSeq, long long, true, kNoTag, hetero_all<E>(x, static_cast<u64>(y)))
 C13_HET_E(char, char)
 C13_HET_E(schar, signed char)
 C13_HET_E(uchar, unsigned char)
@@ -1141,19 +1150,32 @@ constexpr auto mixed_cmp(M m, N n) -> u64
     r     = r * 0x100000001b3ULL + res(etl::saturate_cast<N>(m));
     return r;
 }
-    #define C13_MIX(MS, M, NS, N)                                                                                                                \
-        C13_FN2(gcd_##MS##_##NS, "gcd." #MS "." #NS, "numeric", M, N, gcdlcm_dom(x, y, false), kNoTag, etl::gcd(x, y))                            \
-        C13_FN2(lcm_##MS##_##NS, "lcm." #MS "." #NS, "numeric", M, N, gcdlcm_dom(x, y, true), kNoTag, etl::lcm(x, y))                             \
-        C13_FN2(cmp_##MS##_##NS, "cmp." #MS "." #NS, "numeric", M, N, true, kNoTag, mixed_cmp(x, y))
-    #define C13_MIX_M(MS, M)                                                                                                                     \
-        C13_MIX(MS, M, i8, std::int8_t)                                                                                                          \
-        C13_MIX(MS, M, u8, std::uint8_t)                                                                                                         \
-        C13_MIX(MS, M, i16, std::int16_t)                                                                                                        \
-        C13_MIX(MS, M, u16, std::uint16_t)                                                                                                       \
-        C13_MIX(MS, M, i32, std::int32_t)                                                                                                        \
-        C13_MIX(MS, M, u32, std::uint32_t)                                                                                                       \
-        C13_MIX(MS, M, i64, std::int64_t)                                                                                                        \
-        C13_MIX(MS, M, u64, std::uint64_t)
+template <typename M, typename N>
+constexpr auto mixed_one(M m, u64 nbits) -> u64
+{
+    auto const n = static_cast<N>(nbits);
+    u64 r        = mixed_cmp(m, n);
+    if (gcdlcm_dom(m, n, false)) { r = r * 0x100000001b3ULL + res(etl::gcd(m, n)); }
+    if (gcdlcm_dom(m, n, true)) { r = r * 0x100000001b3ULL + res(etl::lcm(m, n)); }
+    return r;
+}
+template <typename M>
+constexpr auto mixed_all(M m, u64 nbits) -> u64
+{
+    u64 r = mixed_one<M, std::int8_t>(m, nbits);
+    r     = r * 31 + mixed_one<M, std::uint8_t>(m, nbits);
+    r     = r * 31 + mixed_one<M, std::int16_t>(m, nbits);
+    r     = r * 31 + mixed_one<M, std::uint16_t>(m, nbits);
+    r     = r * 31 + mixed_one<M, std::int32_t>(m, nbits);
+    r     = r * 31 + mixed_one<M, std::uint32_t>(m, nbits);
+    r     = r * 31 + mixed_one<M, std::int64_t>(m, nbits);
+    r     = r * 31 + mixed_one<M, std::uint64_t>(m, nbits);
+    r     = r * 31 + mixed_one<M, long long>(m, nbits);
+    r     = r * 31 + mixed_one<M, unsigned long>(m, nbits);
+    return r;
+}
+// the second word is converted to every integer type in turn: gcd / lcm (where in the domain), cmp_*, in_range, saturate_cast
+    #define C13_MIX_M(MS, M) C13_FN2(mixed_##MS, "mixed." #MS, "numeric", M, long long, true, kNoTag, mixed_all<M>(x, static_cast<u64>(y)))
 C13_MIX_M(i8, std::int8_t)
 C13_MIX_M(u8, std::uint8_t)
 C13_MIX_M(i16, std::int16_t)
@@ -1181,34 +1203,63 @@ constexpr auto fits(long long count) -> bool
     auto const q = static_cast<__int128>(count) * CF::num / CF::den;
     return q - 1 >= std::numeric_limits<typename To::rep>::min() && q + 1 <= std::numeric_limits<typename To::rep>::max();
 }
+// floor / ceil / round compare and subtract d and the candidate results in common_type_t<From, To> (as the standard
+// specifies them): both must be representable there, otherwise the call has undefined behaviour in every implementation
+template <typename To, typename From>
+constexpr auto rounding_fits(long long count) -> bool
+{
+    using CT = etl::common_type_t<From, To>;
+    using CF = etl::ratio_divide<typename From::period, typename To::period>;
+    using FC = etl::ratio_divide<typename From::period, typename CT::period>;
+    using TC = etl::ratio_divide<typename To::period, typename CT::period>;
+    constexpr auto lo = static_cast<__int128>(std::numeric_limits<typename CT::rep>::min());
+    constexpr auto hi = static_cast<__int128>(std::numeric_limits<typename CT::rep>::max());
+    auto const q  = static_cast<__int128>(count) * CF::num / CF::den;
+    auto const d  = static_cast<__int128>(count) * FC::num / FC::den;
+    auto const t0 = (q - 2) * TC::num / TC::den;
+    auto const t1 = (q + 2) * TC::num / TC::den;
+    return d >= lo && d <= hi && t0 >= lo && t1 <= hi && t1 - t0 <= hi;
+}
 template <typename To, typename From>
 constexpr auto casts(long long count) -> u64
 {
     From const d{static_cast<typename From::rep>(count)};
     u64 r = 0;
     r     = r * 0x100000001b3ULL + static_cast<u64>(static_cast<long long>(ec::duration_cast<To>(d).count()));
-    r     = r * 0x100000001b3ULL + static_cast<u64>(static_cast<long long>(ec::floor<To>(d).count()));
-    r     = r * 0x100000001b3ULL + static_cast<u64>(static_cast<long long>(ec::ceil<To>(d).count()));
-    r     = r * 0x100000001b3ULL + static_cast<u64>(static_cast<long long>(ec::round<To>(d).count()));
-    using TP = ec::time_point<ec::system_clock, From>;
-    r     = r * 0x100000001b3ULL + static_cast<u64>(static_cast<long long>(ec::floor<To>(TP{d}).time_since_epoch().count()));
+    if (rounding_fits<To, From>(count)) {
+        r = r * 0x100000001b3ULL + static_cast<u64>(static_cast<long long>(ec::floor<To>(d).count()));
+        r = r * 0x100000001b3ULL + static_cast<u64>(static_cast<long long>(ec::ceil<To>(d).count()));
+        r = r * 0x100000001b3ULL + static_cast<u64>(static_cast<long long>(ec::round<To>(d).count()));
+        using TP = ec::time_point<ec::system_clock, From>;
+        r = r * 0x100000001b3ULL + static_cast<u64>(static_cast<long long>(ec::floor<To>(TP{d}).time_since_epoch().count()));
+    }
     return r;
 }
 } // namespace dur
-    #define C13_DUR(FS, F, TS, T) C13_FN1(dur_##FS##_##TS, "duration_cast." #FS "." #TS, "chrono", long long, (dur::fits<T, F>(x)), kNoTag, dur::casts<T, F>(x))
+namespace dur {
+template <typename To, typename From>
+constexpr auto one(long long count) -> u64 { return fits<To, From>(count) ? casts<To, From>(count) : 0x55; }
+template <typename From>
+constexpr auto all(long long count) -> u64
+{
+    u64 r = one<ec::minutes, From>(count);
+    r     = r * 31 + one<ec::hours, From>(count);
+    r     = r * 31 + one<ec::days, From>(count);
+    r     = r * 31 + one<ec::weeks, From>(count);
+    r     = r * 31 + one<ec::months, From>(count);
+    r     = r * 31 + one<ec::years, From>(count);
+    r     = r * 31 + one<sec32, From>(count);
+    r     = r * 31 + one<ms32, From>(count);
+    r     = r * 31 + one<t44100, From>(count);
+    r     = r * 31 + one<t48000, From>(count);
+    r     = r * 31 + one<ec::seconds, From>(count);
+    r     = r * 31 + one<ec::milliseconds, From>(count);
+    return r;
+}
+} // namespace dur
+// every target type whose result is representable is cast to in turn
     #define C13_DUR_F(FS, F)                                                                                                                     \
-        C13_DUR(FS, F, minutes, dur::ec::minutes)                                                                                                \
-        C13_DUR(FS, F, hours, dur::ec::hours)                                                                                                    \
-        C13_DUR(FS, F, days, dur::ec::days)                                                                                                      \
-        C13_DUR(FS, F, weeks, dur::ec::weeks)                                                                                                    \
-        C13_DUR(FS, F, months, dur::ec::months)                                                                                                  \
-        C13_DUR(FS, F, years, dur::ec::years)                                                                                                    \
-        C13_DUR(FS, F, sec32, dur::sec32)                                                                                                        \
-        C13_DUR(FS, F, ms32, dur::ms32)                                                                                                          \
-        C13_DUR(FS, F, t44100, dur::t44100)                                                                                                      \
-        C13_DUR(FS, F, t48000, dur::t48000)                                                                                                      \
-        C13_DUR(FS, F, seconds, dur::ec::seconds)                                                                                                \
-        C13_DUR(FS, F, milliseconds, dur::ec::milliseconds)
+        C13_FN1(dur_##FS, "duration_cast." #FS, "chrono", long long, (x >= std::numeric_limits<F::rep>::min() && x <= std::numeric_limits<F::rep>::max()), kNoTag, dur::all<F>(x))
 C13_DUR_F(minutes, dur::ec::minutes)
 C13_DUR_F(hours, dur::ec::hours)
 C13_DUR_F(days, dur::ec::days)
